@@ -25,7 +25,11 @@ func TestC12Close(t *testing.T) {
 	dir := outDir(t)
 	ts := newTraceSet(dir, "c12")
 	thorough := os.Getenv("VERIF_TIER") == "thorough"
-	scenarios := []string{"transfer", "fullwindow", "idle", "lossy", "idleKeepalive", "backlog"}
+	// resendStalled: the peer's ACKs vanish, then the client's transport
+	// blocks; the resend timer fires and the send loop sits in the write of
+	// a retransmitted packet when Close is called
+	scenarios := []string{"transfer", "fullwindow", "idle", "lossy", "idleKeepalive", "backlog",
+		"resendStalled"}
 	whos := []string{"c", "s", "both", "twice", "many"}
 	nets := []string{"ok", "blackhole", "fail", "block"}
 	times := []int{0, 7, 60, 130, 520, 1010, 1700, 3100}
@@ -41,7 +45,11 @@ func TestC12Close(t *testing.T) {
 			for _, nt := range nets {
 				for _, at := range times {
 					idx++
-					if nt == "block" {
+					if sc == "resendStalled" {
+						if !(nt == "block" && at == 130 && (who == "c" || who == "twice")) {
+							continue
+						}
+					} else if nt == "block" {
 						// a second Close caller waits on a
 						// sync.Once mutex while the first sits out
 						// the FIN timeout; mutex waits are not
@@ -69,7 +77,7 @@ func TestC12Close(t *testing.T) {
 						CloseScript: func(r *gbnrun.Run) {},
 					}
 					switch sc {
-					case "fullwindow":
+					case "fullwindow", "resendStalled":
 						cfg.Msgs = [2]int{8, 0}
 					case "backlog":
 						// the server application never reads: its
@@ -93,7 +101,7 @@ func TestC12Close(t *testing.T) {
 						}
 					}
 					cfg.OnReady = func(r *gbnrun.Run) {
-						if sc == "fullwindow" {
+						if sc == "fullwindow" || sc == "resendStalled" {
 							// the server's ACKs vanish: the client's
 							// window fills and its Send blocks
 							r.Net.Silence("s", true)
@@ -110,6 +118,11 @@ func TestC12Close(t *testing.T) {
 						case "block":
 							r.Net.Block("c", true)
 							r.Net.Block("s", true)
+						}
+						if sc == "resendStalled" {
+							// past the resend timeout: the send loop is
+							// now stuck in the write of a resent packet
+							time.Sleep(1600 * time.Millisecond)
 						}
 						r.Rec.Emit("netAtClose", "net", nt)
 						r.NoteBlocked("c")
